@@ -8,8 +8,8 @@ from fractions import Fraction
 from typing import Any, Dict, List, Optional, Tuple
 
 from ..dofsym import KINDS
-from ..interp import (Arr, Interp, Obj, PyFunc, Raised, SymInt, Unsupported,
-                      Bound)
+from ..interp import (Arr, Interp as _Interp, Obj, Opaque, PyFunc, Raised,
+                      SymInt, Unsupported, Bound)
 from ..model import AnalysisError, Model, src
 from ..poly import Poly
 
@@ -51,6 +51,25 @@ KIND_OF_TABLE = {"facets": "nodal", "t": "nodal", "f2e": "edge",
 # which entities index the columns of the table
 DOMAIN_OF_TABLE = {"facets": "facets", "f2e": "facets", "t": "elements",
                    "t2e": "elements", "t2f": "elements"}
+
+
+def Interp(model, call_hook=None):
+    """interpreter in lenient mode: attributes the rule's stub objects do
+    not model become opaque values (they can never equal an expected
+    result, so a changed lookup is reported instead of stopping the
+    analysis)"""
+    base = call_hook
+
+    def hook(interp, name, args, kwargs, node):
+        r = base(interp, name, args, kwargs, node) if base else \
+            NotImplemented
+        if r is NotImplemented and any(
+                isinstance(a, (Opaque, Derived)) for a in args):
+            return Derived(f"{name.split('.')[-1]}(..)")
+        return r
+    it = _Interp(model, call_hook=hook)
+    it.lenient_attrs = True
+    return it
 
 
 class Sel:
